@@ -112,6 +112,15 @@ def dom_local_name_clash_witness():
     return sorted(p.attributes.keys()) != ["href", "xlink:href"]
 
 
+@ground("C11")
+def c11_attributes_read_back_alike():
+    """the same obligation read as a walker obligation (C11): getNodeDetails of the etree and dom walkers report each
+    attribute under (namespace, local name), un-namespaced ones under their whole name"""
+    r = attributes_read_back_alike()
+    r["id"] = r["id"].replace("C04/", "C11/")
+    return r
+
+
 @ground("C04")
 def attributes_read_back_alike():
     bad = []
